@@ -460,7 +460,8 @@ impl CaseSpace for Outcomes {
         true
     }
     fn total(&self) -> usize {
-        self.cases.len() + 1
+        // + the full queue + each request kind issued while there is no connection
+        self.cases.len() + 1 + KINDS
     }
     fn run(&self, index: usize, transcript: bool) -> RunResult {
         let mut res = RunResult::default();
@@ -527,6 +528,36 @@ impl CaseSpace for Outcomes {
                     format!("{done} of 8 futures resolved, {too_many} with TooManyRequests"),
                 ));
             }
+            res.nontrivial = true;
+            return res;
+        }
+        if index > self.cases.len() {
+            // no connection: the request is refused at once (one outcome, an error), not parked
+            let k = index - self.cases.len() - 1;
+            sim.disconnect();
+            sim.take_out();
+            sim.take_cb();
+            let name = submit(&mut sim, &a, k);
+            sim.advance(400);
+            let (cbs, _) = sim.take_cb();
+            let done: Vec<&String> = cbs.iter().filter_map(|c| if let MCb::Done(n, r) = c { if n == name { Some(r) } else { None } } else { None }).collect();
+            if transcript {
+                res.transcript.push(format!("kind {k} issued without a connection: {done:?}"));
+            }
+            res.transitions += 1;
+            if let Some(f) = sim.failure() {
+                res.violation = Some(Violation::new("C16.X0", f.clone(), f));
+                return res;
+            }
+            if done.len() != 1 || done[0].starts_with("Ok") {
+                res.violation = Some(Violation::new(
+                    "C16.U8",
+                    format!("request-without-a-connection-not-refused:kind{k}"),
+                    format!("{} outcomes within 400 ms (before the master reconnects): {done:?}", done.len()),
+                ));
+                return res;
+            }
+            res.model_states.push(9000 + k as u64);
             res.nontrivial = true;
             return res;
         }
